@@ -1,5 +1,6 @@
 import CM.Lib.Wire
 import CM.Model.Account
+import CM.Generated.Fn
 /-!
 Driver handler for C20.
 
@@ -74,6 +75,20 @@ def handleInternal (args impl : List String) : String :=
         (if internalIP bytes then "I" else "") ++ (if m && !internalIP bytes then "S" else "")
       let _ := impl
       reply model "-" tag
+    | _, _ => bad
+  | _ => bad
+
+/-- `internalfn <hostOnly(subj)> <ip bytes>`: the TRANSLATED `SubjectIsInternal` (CM/Generated/Fn, printed
+from the source on this run), with `hostOnly`'s answer and `isInternalIP`'s model as its parameters -/
+def handleInternalFn (args impl : List String) : String :=
+  match args with
+  | [host, ip] =>
+    match decStr host, decBytes ip with
+    | some ho, some bytes =>
+      if !(ho.all (fun c => c.toNat < 128)) || !(CM.Gen.Fn.translated.contains "SubjectIsInternal") then reply "*" "-" "" else
+      let g := CM.Gen.Fn.SubjectIsInternal (fun _ => ho) (fun _ => internalIP bytes) []
+      let _ := impl
+      reply (if g then "true" else "false") "-" (if g then "G" else "g")
     | _, _ => bad
   | _ => bad
 
@@ -350,6 +365,7 @@ def handle (args impl : List String) : String :=
   match args with
   | "url" :: rest => handleUrl rest impl
   | "internal" :: rest => handleInternal rest impl
+  | "internalfn" :: rest => handleInternalFn rest impl
   | "trace" :: toks => reply (validate toks) (spec toks) (traceTag toks)
   | _ => bad
 
